@@ -30,7 +30,7 @@ CUSTOM = {
 }
 from ..refmodels import BUILTIN_LAYERS, layer_thicknesses, reference_layer_map  # noqa: E402
 
-IWCS = ["PropLayer", "PctLayer", "NumLayer", "PropDepth", "PctDepth", "NumDepth", "PropLayerRev", "PctLayerMixed", "PropDepthRev", "PctDepthMixed", "NumLayerMixed"]
+IWCS = ["PropLayer", "PctLayer", "NumLayer", "PropDepth", "PctDepth", "NumDepth", "PropLayerRev", "PctLayerMixed", "PropDepthRev", "PctDepthMixed", "NumLayerMixed", "PropLayerDesc", "NumLayerDesc", "PctLayerDesc"]
 
 
 def texture_soils():
@@ -58,6 +58,13 @@ def iwc_spec(kind, nlayers):
     if kind == "NumDepth":
         return {"wc_type": "Num", "method": "Depth", "depth_layer": [0.0, 0.35, 2.2], "value": [0.18, 0.31, 0.24]}
     # other orders and mixed literal types of the value list (a container that takes its element type from one entry shows here)
+    # layers listed in another order than 1, 2, 3 (each value belongs to the layer LABEL next to it)
+    if kind == "PropLayerDesc":
+        return {"wc_type": "Prop", "method": "Layer", "depth_layer": layers[::-1], "value": (["WP", "FC", "SAT"] * 3)[:nlayers]}
+    if kind == "NumLayerDesc":
+        return {"wc_type": "Num", "method": "Layer", "depth_layer": layers[::-1], "value": [0.21, 0.33, 0.27][:nlayers]}
+    if kind == "PctLayerDesc":
+        return {"wc_type": "Pct", "method": "Layer", "depth_layer": (layers[1:] + layers[:1]), "value": [30.0, 70.0, 100.0][:nlayers]}
     if kind == "PropLayerRev":
         return {"wc_type": "Prop", "method": "Layer", "depth_layer": layers, "value": (["SAT", "FC", "WP"] * 3)[:nlayers] if nlayers > 1 else ["SAT"]}
     if kind == "PctLayerMixed":
@@ -283,7 +290,8 @@ def run(scn):
         return float(v)
 
     if iw["method"] == "Layer":
-        exp = np.array([layer_value(lay[i], iw["value"][int(lay[i]) - 1]) for i in range(n)])
+        by_label = {int(l): v for l, v in zip(iw["depth_layer"], iw["value"])}      # the value the user wrote next to each layer label
+        exp = np.array([layer_value(lay[i], by_label[int(lay[i])]) for i in range(n)])
     else:
         depths = np.array(iw["depth_layer"], dtype=float)
         vals = []
